@@ -294,6 +294,10 @@ RowClauses4(S, A, R, n, ph, r, sup, sel, kids, tol, ta, T) ==
      Cl("C02.Acct.Power", ~load,
         IF src THEN EqX(r.pwr, PA(S, n, "vo") \otimes r.iout, r.pwr, thru)
         ELSE EqX(r.pwr, DAbs(r.vin) \otimes r.iin, r.pwr, thru)),
+     \* the documented loss expression of the kind on the row's own quantities (exact class; a series drop is
+     \* computed by the library with cancellation, hence the throughput term)
+     Cl("C02.Acct.Loss", ~load,
+        LossLaw(S, n, ph, sel, r.vin, r.vout, r.iin, r.iout, r.loss, LAMBDA x, y, sc : EqX(x, y, sc, thru))),
      Cl("C02.LoadExclusive", load,
         IF IsLossLoad(S, n)
         THEN DIsZero(r.pwr) /\ EqX(r.loss, DAbs(r.vin) \otimes r.iin, r.loss, thru)
@@ -463,6 +467,16 @@ WantClauses(c, S) ==
        IN Tag(<< Cl("C08.RailsAsAssigned", TRUE, same /\ \A n \in WN : S.comps[n].rail = At(n).rail),
                  Cl("C05.InputsAsDeclared", TRUE, same /\ \A n \in WN : S.par[n] = At(n).par),
                  Cl("C07.SourcesAsBuilt", TRUE, same /\ \A n \in WN : S.comps[n].cls = At(n).cls),
+                 \* every applicable limit handed to a constructor is the limit in force (as given: no re-ordering, no sign change)
+                 Cl("C09.LimitsAsConfigured", c.wantlim # <<>>,
+                    \A i \in DOMAIN c.wantlim :
+                       LET wn == c.wantlim[i].name IN
+                       wn \in Names(S) =>
+                          \A j \in DOMAIN c.wantlim[i].lims :
+                             LET l == c.wantlim[i].lims[j] IN
+                             l.k \in LimKeys(S, wn) =>
+                                /\ DEq(LimOf(S, wn, l.k)[1], DJ(l.lo))
+                                /\ DEq(LimOf(S, wn, l.k)[2], DJ(l.hi))),
                  Cl("C06.ConfAsConfigured", TRUE,
                     same /\ \A n \in WN : S.pconf[n].t = At(n).ct /\ ConfKeys(S.pconf[n]) = SeqRange(At(n).ck)) >>, "", "")
 
@@ -489,7 +503,7 @@ CaseClauses(c, S) ==
 
 AllClauseNames ==
   {"C01.Link.Vin", "C01.SourceVin", "C01.Link.Iout", "C01.Law.Vout", "C01.Law.Iin",
-   "C02.Acct.Power", "C02.LoadExclusive", "C02.Energy.Row", "C02.LossRange", "C02.Eff",
+   "C02.Acct.Power", "C02.Acct.Loss", "C02.LoadExclusive", "C02.Energy.Row", "C02.LossRange", "C02.Eff",
    "C02.Thermal.Rise", "C02.Thermal.Peak", "C02.Thermal.Shown", "C02.Energy.System",
    "C03.Finite", "C03.PassiveNoGain", "C03.SourceNoGain", "C03.ExcClass",
    "C04.DeadRowZero", "C04.SleepCurrent", "C04.SleepPower",
@@ -503,7 +517,7 @@ AllClauseNames ==
    "C10.Value.Vout", "C10.Value.Iin", "C11.LossNonNeg", "C11.EffLe100", "C11.PassiveNoGain",
    "driver.DesignedOK", "C03.FindsModest", "C03.Residual.Vout", "C03.Residual.Iin",
    "C06.PhaseValue", "C06.SleepValue", "C06.ActiveList", "C06.NoConfig", "C06.SinglePhaseEqualsSlice",
-   "C06.UnknownPhase", "C05.InputOrderAfterEdit", "C01.Build", "C02.Build", "C04.Build", "C05.Build", "C06.Build", "C07.Build", "C08.Build", "C09.Build", "C08.RailsAsAssigned", "C05.InputsAsDeclared", "C07.SourcesAsBuilt", "C06.ConfAsConfigured", "C08.NoException", "C08.NoRails", "C08.None", "C08.RailSet", "C08.Voltage", "C08.Sums", "C08.Warnings"}
+   "C06.UnknownPhase", "C05.InputOrderAfterEdit", "C01.Build", "C02.Build", "C04.Build", "C05.Build", "C06.Build", "C07.Build", "C08.Build", "C09.Build", "C08.RailsAsAssigned", "C05.InputsAsDeclared", "C07.SourcesAsBuilt", "C09.LimitsAsConfigured", "C06.ConfAsConfigured", "C08.NoException", "C08.NoRails", "C08.None", "C08.RailSet", "C08.Voltage", "C08.Sums", "C08.Warnings"}
 
 Init == ci = 1 /\ verd = <<>> /\ stat = [c \in AllClauseNames |-> 0]
 
